@@ -172,7 +172,9 @@ type Process struct {
 	element            *schema.Process
 	flowNodeMapping    *FlowNodeMapping
 	flowWaitGroup      sync.WaitGroup
-	complete           sync.RWMutex
+	monitor            sync.Once
+	completed          chan struct{}
+	aborted            chan struct{}
 	eventConsumersLock sync.RWMutex
 	eventConsumers     []event.IConsumer
 	subTracer          tracing.ITracer
@@ -212,6 +214,8 @@ func NewProcess(processElem *schema.Process, definitions *schema.Definitions, op
 		Options:         options,
 		element:         processElem,
 		flowNodeMapping: NewLockedFlowNodeMapping(),
+		completed:       make(chan struct{}),
+		aborted:         make(chan struct{}),
 	}
 	idGenerator := options.idGenerator
 
@@ -608,11 +612,15 @@ func (p *Process) StartWith(ctx context.Context, element schema.FlowNodeInterfac
 		// The monitor subscribes to the traces before the start event is
 		// triggered: otherwise the start event's flow trace can be emitted
 		// before the subscription and the instance is never seen to complete.
-		sender := p.tracer.RegisterSender()
-		monitor := p.ceaseFlowMonitor(p.subTracer)
+		// There is one monitor per instance, however many start events are
+		// triggered: it waits for all of them.
+		p.monitor.Do(func() {
+			sender := p.tracer.RegisterSender()
+			monitor := p.ceaseFlowMonitor(p.subTracer)
+			go monitor(ctx, sender)
+		})
 		eventNode.Trigger(ctx)
 		verifhook.Point("process.started")
-		go monitor(ctx, sender)
 		p.tracer.Send(InstantiationTrace{InstanceId: p.id})
 
 	case *throwEvent:
@@ -663,10 +671,8 @@ func (p *Process) ceaseFlowMonitor(tracer tracing.ITracer) func(ctx context.Cont
 	// after the goroutine below is started are not going to be
 	// sent to it.
 	traces := tracer.Subscribe()
-	p.complete.Lock()
 	return func(ctx context.Context, sender tracing.ISenderHandle) {
 		defer sender.Done()
-		defer p.complete.Unlock()
 
 		/* 13.4.6 End Events:
 
@@ -710,6 +716,7 @@ func (p *Process) ceaseFlowMonitor(tracer tracing.ITracer) func(ctx context.Cont
 				}
 			case <-ctx.Done():
 				tracer.Unsubscribe(traces)
+				close(p.aborted)
 				return
 			}
 		}
@@ -727,7 +734,9 @@ func (p *Process) ceaseFlowMonitor(tracer tracing.ITracer) func(ctx context.Cont
 		case <-waitIsOver:
 			// Send out a cease flow trace
 			tracer.Send(CeaseFlowTrace{Process: p.element})
+			close(p.completed)
 		case <-ctx.Done():
+			close(p.aborted)
 		}
 	}
 }
@@ -735,18 +744,21 @@ func (p *Process) ceaseFlowMonitor(tracer tracing.ITracer) func(ctx context.Cont
 // WaitUntilComplete waits until the instance is complete.
 // Returns true if the instance was complete, false if the context signaled `Done`
 func (p *Process) WaitUntilComplete(ctx context.Context) (complete bool) {
-	signal := make(chan bool)
-	go func() {
-		p.complete.Lock()
-		defer p.complete.Unlock()
-		verifhook.Point("process.wait")
-		signal <- true
-	}()
+	verifhook.Point("process.wait")
 	select {
+	case <-p.completed:
+		// completion wins over a context that is done as well
+		return true
+	default:
+	}
+	select {
+	case <-p.completed:
+		complete = true
+	case <-p.aborted:
+		// the context the instance was started with is done: it will never complete
+		complete = false
 	case <-ctx.Done():
 		complete = false
-	case <-signal:
-		complete = true
 	}
 	return
 }
